@@ -63,8 +63,14 @@ enum Carrier {
     LocListEmptyRange,
     LocListTombstone,
     LocListSecondEntry,
+    /// DW_FORM_ref_addr / DW_OP_call_ref to the ROOT entry of the other unit (dwz-style
+    /// DW_AT_import of a partial unit): the target unit may have nothing else retained
+    AttrRefAddrOtherUnitRoot,
+    ExprCallRefOtherUnitRoot,
 }
-const MORE_CARRIERS: [Carrier; 11] = [
+const MORE_CARRIERS: [Carrier; 13] = [
+    Carrier::AttrRefAddrOtherUnitRoot,
+    Carrier::ExprCallRefOtherUnitRoot,
     Carrier::ExprImplicitPointer,
     Carrier::ExprEntryValueNested,
     Carrier::ExprParameterRef,
@@ -226,6 +232,18 @@ fn build_case(c: &mut Case) -> Option<Model> {
                 }
                 loclist(&mut units, su, sd, vec![Op::Call4(tgt(dd, su))]);
                 c.edges.push((src, dst));
+            }
+            Carrier::AttrRefAddrOtherUnitRoot | Carrier::ExprCallRefOtherUnitRoot => {
+                if c.nunits != 2 || dst != 0 || src == 0 {
+                    return None;
+                }
+                let other = T::Die(1 - su, 0);
+                if carrier == Carrier::AttrRefAddrOtherUnitRoot {
+                    push(&mut units, su, sd, at(at_ref, AV::Ref(FORM_REF_ADDR, other)));
+                } else {
+                    push(&mut units, su, sd, at(at_loc, AV::Expr(exprform, vec![Op::CallRef(other), Op::Simple(OP_STACK_VALUE)])));
+                }
+                // a unit root is never subject to the filter: no edge for the closure model
             }
             Carrier::ExprImplicitPointer => {
                 push(&mut units, su, sd, at(at_loc, AV::Expr(exprform, vec![Op::ImplicitPointer(tgt(dd, su), 0)])));
@@ -761,6 +779,7 @@ pub fn def(tier: Tier) -> CheckDef {
             "c19:carrier:ExprEntryValueNested".into(),
             "c19:carrier:LocListDefault".into(),
             "c19:carrier:LocListTombstone".into(),
+            "c19:carrier:AttrRefAddrOtherUnitRoot".into(),
         ],
     }
 }
